@@ -213,8 +213,8 @@ func (w *World) exchangeBatch(batch *Batch, add []ID, rem []ID,
 	if len(add) == 0 && len(rem) == 0 {
 		panic("at least one component required to add or remove")
 	}
-	lock := w.lock()
-
+	// Resolve the target tables first. Invalid arguments cause a panic here,
+	// before the world is locked and before anything is changed.
 	relRemoved := false
 	tables := w.storage.getBatchTables(batch)
 	batchTables := w.storage.slices.batches
@@ -237,6 +237,8 @@ func (w *World) exchangeBatch(batch *Batch, add []ID, rem []ID,
 		})
 	}
 	w.storage.slices.tables = tables[:0]
+
+	lock := w.lock()
 
 	if len(rem) > 0 {
 		if w.storage.observers.HasObservers(OnRemoveComponents) {
